@@ -196,6 +196,10 @@ func (e *Exec) step(fr *frame, st *State, in ssa.Instruction, b *ssa.BasicBlock)
 	case *ssa.MakeInterface:
 		fr.vals[x] = e.makeInterface(st, e.val(fr, st, x.X), x.X.Type())
 		if bt, ok := fr.vals[x].(Term); ok {
+			if e.boxInfo == nil {
+				e.boxInfo = map[string]boxed{}
+			}
+			e.boxInfo[bt.S] = boxed{e.val(fr, st, x.X), x.X.Type()}
 			e.linkPure(st, x.Type(), x.X.Type(), bt, fr.vals[x], e.val(fr, st, x.X), e.pos(x.Pos()))
 		}
 		return true
